@@ -54,7 +54,7 @@ def opP : Tok Op := do
   | "Q" => do let ms ← Tok.list msgP; pure (.query ms)
   | _ => failure
 
-def idxStr (idx : Index) : String :=
+def idxStr (idx : NameIndex) : String :=
   if idx.isEmpty then "-" else ";".intercalate (idx.map (fun p => s!"{hexOfStr p.1}:{strList p.2}"))
 
 def dump (reg : Registry) : String :=
